@@ -44,6 +44,7 @@ func (pass *UndiscriminatedDisjunctionToAny) processDisjunction(visitor *Visitor
 		if len(disjunction.Discriminator) == 0 || len(disjunction.DiscriminatorMapping) == 0 {
 			anyType := ast.Any(ast.Trail("UndiscriminatedDisjunctionToAny"))
 			anyType.Nullable = def.Nullable
+			anyType.Default = def.Default
 
 			return anyType, nil
 		}
